@@ -91,10 +91,24 @@ Theorem c14_single_local_reply_family : forall c, In c family -> forall sched, F
 Proof. exact c14_reply_family. Qed.
 Print Assumptions c14_single_local_reply_family.
 
+(* content of the reply: the body the client is sent belongs to the response whose headers it was sent (nothing from an upstream
+   response may follow a local reply's headers).  Family x every schedule - it is the last conjunct of c03_safe (Props/C03.v);
+   restated here for the chains with send filters that answer from the send phase and for retried 5xx responses with a body.
+   With a sendHijackReply that leaves a stored body in place (switch set back) it fails: *)
+Theorem c14_reply_body_belongs_to_headers_family : forall c, In c family -> forall sched, Forall allowed sched ->
+  g_mixed (summ proxy_src c sched) = false.
+Proof. exact (fun c Hc sched Hs => proj2 (proj2 (proj2 (proj2 (proj2 (c03_safe_family c Hc sched Hs)))))). Qed.
+Print Assumptions c14_reply_body_belongs_to_headers_family.
+Example c14_stale_body_after_hijack :
+  g_mixed (summ src_keep_body cfg_stale sched_stale) = true /\ g_reply_kind (summ src_keep_body cfg_stale sched_stale) = Some (KHijack, 503) /\
+  g_mixed (summ src_tree cfg_stale sched_stale) = false /\ g_reply_kind (summ src_tree cfg_stale sched_stale) = Some (KHijack, 503) /\
+  g_ended (summ src_tree cfg_stale sched_stale) = true.
+Proof. exact witness_stale_body. Qed.
+
 Example c14_example :
   let c := mk false false false RouteForward 2 true 0 [] false 0
               [{| f_phase := 1; f_code := 403; f_verdicts := [VHijackCont] |}; {| f_phase := 1; f_code := 429; f_verdicts := [VReMatch] |}]
-              [{| sf_verdicts := [] |}] [] in
+              [{| sf_code := 400; sf_verdicts := [] |}] [] in
   In c family /\ Forall allowed drive /\ g_denied (summ proxy_src c drive) = true /\
   g_reply_kind (summ proxy_src c drive) = Some (KHijack, 403) /\ scalls (final proxy_src c drive) = [1%nat].
 Proof. exact c14_example_holds. Qed.
